@@ -2,6 +2,7 @@
 
 static int _asn1f_check_if_tag_must_be_explicit(arg_t *arg, asn1p_expr_t *v);
 static int _asn1f_compare_tags(arg_t *arg, asn1p_expr_t *a, asn1p_expr_t *b);
+static int _asn1f_compare_tags_impl(arg_t *arg, asn1p_expr_t *a, asn1p_expr_t *b);
 static int _asn1f_fix_type_tag(arg_t *arg, asn1p_expr_t *expr);
 
 int
@@ -398,9 +399,32 @@ _asn1f_check_if_tag_must_be_explicit(arg_t *arg, asn1p_expr_t *v) {
 
 /*
  * Check that the tags are distinct.
+ * A type which contains itself without an intervening tag, such as
+ * T ::= CHOICE { a T, b INTEGER }, has no finite set of tags to compare.
  */
 static int
 _asn1f_compare_tags(arg_t *arg, asn1p_expr_t *a, asn1p_expr_t *b) {
+	static int depth;
+	int ret;
+
+	if(depth >= 1000) {
+		FATAL("Processing %s at line %d: the tags of "
+			"component \"%s\" at line %d cannot be determined: "
+			"the type is defined through itself",
+			arg->expr->Identifier, arg->expr->_lineno,
+			a->Identifier, a->_lineno);
+		return -1;
+	}
+
+	depth++;
+	ret = _asn1f_compare_tags_impl(arg, a, b);
+	depth--;
+
+	return ret;
+}
+
+static int
+_asn1f_compare_tags_impl(arg_t *arg, asn1p_expr_t *a, asn1p_expr_t *b) {
 	struct asn1p_type_tag_s ta, tb;
 	int ra, rb;
 	int ret;
